@@ -380,20 +380,26 @@ func (d *decWalker) nameComparison(e ast.Expr, fr *decFrame, it types.Object) (s
 }
 
 func (d *decWalker) walkNameIfChain(t *ast.IfStmt, fr *decFrame, path string, it types.Object) bool {
-	name, ok := d.nameComparison(t.Cond, fr, it)
-	if !ok {
-		return false
-	}
+	// the init statement first: `if name := obj.Name(); string(name) == "x" {` introduces the alias
+	// the condition then uses
 	if t.Init != nil {
 		d.walkStmt(t.Init, fr, path)
+	}
+	name, ok := d.nameComparison(t.Cond, fr, it)
+	if !ok {
+		// an ordinary if statement (its init has been walked already)
+		d.walkExpr(t.Cond, fr, path)
+		d.walkStmts(t.Body.List, fr, path)
+		if t.Else != nil {
+			d.walkStmt(t.Else, fr, path)
+		}
+		return true
 	}
 	d.known[path] = append(d.known[path], name)
 	d.walkStmts(t.Body.List, fr, path+"/"+name)
 	switch e := t.Else.(type) {
 	case *ast.IfStmt:
-		if !d.walkNameIfChain(e, fr, path, it) {
-			d.walkStmt(e, fr, path)
-		}
+		d.walkNameIfChain(e, fr, path, it)
 	case nil:
 	default:
 		d.walkStmt(e, fr, path+"/<default>")
